@@ -239,8 +239,10 @@ fn run_case<'a>(ctx: &'a Ctx, case: u64, acc: &'a mut Acc) -> CaseFut<'a> {
                     }
                     // B (peer 2) pulls from the caller, both rooms
                     w.tick(1);
+                    let mut pull_notes: Vec<String> = Vec::new();
                     for rm in &w.rooms {
-                        let _ = pull(&w.peers[2], &w.peers[caller], rm.id, PullOpts::default()).await;
+                        let st = pull(&w.peers[2], &w.peers[caller], rm.id, PullOpts::default()).await;
+                        pull_notes.push(format!("requests={:?} nodes={} edges={} node_del={} edge_del={} error={:?}", st.requests, st.nodes, st.edges, st.node_deletions, st.edge_deletions, st.error));
                     }
                     let b = w.peers[2].snapshot().await;
                     for c in &changes {
@@ -287,9 +289,22 @@ fn run_case<'a>(ctx: &'a Ctx, case: u64, acc: &'a mut Acc) -> CaseFut<'a> {
                                 Change::EdgeAdded(_) | Change::EdgeRemoved(_) => "reference",
                                 _ => "row",
                             };
+                            // mechanism: the local path judges the removal of a reference by the authorship of the row that
+                            // carries it, the peer path by the authorship of the reference itself
+                            let mut sig = format!("C12/accepted-locally-refused-by-peer/{}/{}", kind, what);
+                            if let Change::EdgeRemoved(e) = c {
+                                let src_room = after.nodes.values().find(|x| x.id == e.src).and_then(|x| x.room_id);
+                                let model = src_room.and_then(|r| w.rooms.iter().find(|h| h.id == r)).map(|h| &h.model);
+                                let ent_name = crate::props::c01::entity_name(&e.src_entity).unwrap_or("?");
+                                if let Some(m) = model {
+                                    if e.verifying_key != keys[caller] && !m.can(&keys[caller], ent_name, t, crate::rights::Right::All) && m.can(&keys[caller], ent_name, t, crate::rights::Right::Own) {
+                                        sig = "C12/accepted-locally-refused-by-peer/reference-removal/reference-of-another-author-removed-from-an-own-row-with-the-own-rows-right-only".to_string();
+                                    }
+                                }
+                            }
                             acc.violation(
-                                format!("C12/accepted-locally-refused-by-peer/{}/{}", kind, what),
-                                witness(json!({"problem": p, "change": c.describe()}), &log, &w),
+                                sig,
+                                witness(json!({"problem": p, "change": c.describe(), "pulls": pull_notes}), &log, &w),
                             );
                             return;
                         }
